@@ -1,6 +1,6 @@
 from checks.registry import reg
 
-reg("C13", "c13", [("histories", "plain", 1)], "exploration",
+reg("C13", "c13", [("histories", "plain", 15), ("fuzz", "plain", 1)], "exploration",
     rule="Hypothesis draws a pool (2-4 variables, per-variable box constraints, 2-6 affine/PWL/equality/"
          "variable-free constraints, 2-4 objectives) and a history of <=14 steps "
          "(add, del, del_present, objective reassignment, solve dense/sparse, mutate returned lists, bad argument); "
@@ -10,7 +10,7 @@ reg("C13", "c13", [("histories", "plain", 1)], "exploration",
          "distinct = distinct SHA-1 of the canonical case JSON.",
     assumptions=["the LP solver itself is judged by C01/C02/C05/C12; here only edited-vs-fresh agreement",
                  "solves returning 'unknown' on either side are not compared (counted in histogram)"],
-    technique="model-based property testing of edit histories (Hypothesis) against a list model + fresh-op differential",
+    technique="model-based property testing of edit histories (Hypothesis) against a list model + pristine-twin fresh-op differential; the same histories also driven by coverage-guided fuzzing (atheris/libFuzzer on modeling.py)",
     level_text="Generated edit histories over generated pools, invariant checked after every step against a plain "
                "list model and a freshly constructed op; finds and shrinks bookkeeping defects to 2-3 step histories. "
                "Exploration, not exhaustive: histories up to 14 steps over pools of <=4 variables.",
@@ -213,7 +213,7 @@ reg("C09", "c09", [("histories", "plain", 15), ("refinement", "plain", 1)], "exp
     level_note="Trusts the reference server (a process forked before the first solver call) and float.hex serialisation.",
     design_ref="4/C09")
 
-reg("C11", "c11", [("expressions", "plain", 1)], "exploration",
+reg("C11", "c11", [("expressions", "plain", 15), ("fuzz", "plain", 1)], "exploration",
     rule="Hypothesis draws 1-3 variables of lengths 1-4 and a typed expression tree (depth <= 4) of requested length and "
          "curvature from the documented operations: +, -, unary -, scalar*f, f*scalar, f/scalar, A*f (dense/sparse A), "
          "f*a (len(f)=1), indexing with int / negative int / slice / list / integer matrix, sum, dot, max, min, abs, "
@@ -223,7 +223,7 @@ reg("C11", "c11", [("expressions", "plain", 1)], "exploration",
          "Non-trivial = length >= 2 and (a variable occurring >= 2 times or a convex/concave result); distinct = SHA-1.",
     assumptions=["values compared exactly (dyadic data: no rounding in either implementation)",
                  "curvature acceptance is probed through the public constraint constructors f<=0, -f<=0, f==0"],
-    technique="property-based testing (Hypothesis recursive typed generator) against a numpy reference evaluator; aliasing probes",
+    technique="property-based testing (Hypothesis recursive typed generator) against a numpy reference evaluator; aliasing probes; the same generator also driven by coverage-guided fuzzing (atheris/libFuzzer on modeling.py)",
     level_text="~4e4 (quick) / 8e5 (thorough) generated expression trees: len(f), f.value() at three assignments, "
                "variables(), None-propagation, curvature acceptance/refusal and non-aliasing of +f and binary results are "
                "compared with a reference evaluator written from modeling.rst.",
@@ -251,7 +251,7 @@ reg("C12", "c12", [("problems", "plain", 1)], "exploration",
     level_note="Trusts vlib/ref_model.py, vlib/ref_lp.py and scipy HiGHS.",
     design_ref="4/C12")
 
-reg("C14", "c14", [("roundtrip", "plain", 1), ("reader", "plain", 1)], "exploration",
+reg("C14", "c14", [("roundtrip", "plain", 8), ("reader", "plain", 7), ("fuzz", "plain", 1)], "exploration",
     rule="[reader part: RHS and RANGES lines may carry two (row, value) pairs.] roundtrip: Hypothesis draws an LP in the modeling layer (1-3 variables of lengths 1-3 with distinct short or empty "
          "names, 1-4 constraints <=, >=, == with scalar / row / matrix coefficients, dense or sparse, vector or scalar "
          "right-hand sides, affine objective with constant, values with <= 6 significant digits in [1e-3, 1e4]); tofile, "
@@ -264,7 +264,7 @@ reg("C14", "c14", [("roundtrip", "plain", 1), ("reader", "plain", 1)], "explorat
     assumptions=["labels are kept short enough that the writer's 8-character label mangling is injective (collisions "
                  "are skipped and counted)", "UP with a negative value and no lower bound is not generated (dialect dependent)",
                  "rows without coefficients are removed by fromfile as its code documents"],
-    technique="property-based round-trip testing + differential against an independent MPS semantics model (Hypothesis)",
+    technique="property-based round-trip testing + differential against an independent MPS semantics model (Hypothesis); generated MPS files also driven by coverage-guided fuzzing (atheris/libFuzzer on modeling.py)",
     level_text="~6e3 (quick) round trips compared coefficient-by-coefficient through the MPS labels plus status/optimal value, "
                "and ~1.2e4 generated fixed-format files whose constraint multiset must equal the one the MPS format defines.",
     level_note="Trusts the MPS semantics model in checks/c14.py (expected()) and the fixed-column renderer.",
